@@ -233,6 +233,97 @@ def run(ctx):
                 r.bad(p, "the %s predicate is fed differently: serial %s vs parallel %s (e.g. metadata of the link instead of "
                       "its target)" % (p, diff[0][0] if diff else na, diff[0][1] if diff else nb), fn=par, loc=pp[p][0][0].loc, construct=p)
 
+    with ctx.rule("C06.HELPERS", "definitions of the shared skip helpers and of the parallel depth / device limits", floor=6, kind="GUARD/A3") as r:
+        from ..flow import value_set
+        from .. import wire as Wr
+        sf = facts.fn(W + "::skip_filesize")
+        ebs = ExprBuilder(sf)
+        gt = cond_switches(sf, lambda e: e.k == "bin" and e[1] == "Gt" and any(y.k == "arg" and y[2] == "max_filesize" for y in walk(e[3]))
+                           and mentions_call(e[2], "std::fs::Metadata::len"), ebs)
+        if gt:
+            st = Sccp(sf).run([(gt[0][1][1], {})]); sfv = Sccp(sf).run([(gt[0][2][1], {})])
+            vt = {x for v in st.ret_values.values() for x in value_set(v)}
+            vf = {x for v in sfv.ret_values.values() for x in value_set(v)}
+            if vt == {I(1)} and vf == {I(0)}:
+                r.ok("skip_filesize", "skip ⇔ metadata known ∧ len > max_filesize", fn=sf)
+            else:
+                r.bad("skip_filesize", "skip_filesize answers %s / %s around `len > max_filesize`" % (vt, vf), fn=sf, construct="skip_filesize")
+            arms, info = Wr.variant_arms(sf, ebs, lambda e: True)
+            nn = [i for i in info if i[1] == "core::option::Option"]
+        else:
+            r.bad("skip_filesize", "skip_filesize no longer skips exactly when `len > max_filesize` (strictly greater)", fn=sf, construct="skip_filesize")
+        pe = facts.fn(W + "::path_equals")
+        ebp = ExprBuilder(pe)
+        hf = pe.calls_to("same_file::Handle::from_path")
+        isd = cond_switches(pe, lambda e: is_call(e, W + "::DirEntry::is_stdin"), ebp)
+        if hf and isd and mentions_call(ebp.operand(hf[0].args[0]), W + "::DirEntry::path"):
+            s1 = Sccp(pe).run([(isd[0][1][1], {})])
+            v1 = {x for v in s1.ret_values.values() for x in value_set(v)}
+            if v1 == {V("Ok", I(0))}:
+                r.ok("path_equals", "stdin never equals; otherwise Handle::from_path(dent.path()) == handle", fn=pe)
+            else:
+                r.bad("path_equals", "path_equals answers %s for the stdin entry" % v1, fn=pe, construct="path_equals")
+        else:
+            r.bad("path_equals", "path_equals no longer compares the entry's file handle with the stdout handle", fn=pe, construct="path_equals")
+        ro = facts.fn(W + "::Worker::run_one")
+        ebr = ExprBuilder(ro)
+        gw = ro.calls_to(W + "::Worker::generate_work")
+        md = cond_switches(ro, lambda e: is_call(e, "core::option::Option::map_or") and mentions_field(e, W + "::Worker", "max_depth"), ebr)
+        if gw and md and not guarded(ro, [gw[0].bb], md, False):
+            d_ = ebr.operand(gw[0].args[2])
+            okd = any(x.k == "bin" and x[1] in ("Add", "AddWithOverflow") and any(y.k == "const" and y[1] == 1 for y in (x[2], x[3]))
+                      and mentions_call(x, W + "::DirEntry::depth") for x in walk(d_))
+            clo = [facts.fns.get(x[1]) for x in walk(md[0][3]) if x.k == "closure"]
+            ge = any(g_ is not None and any(st["k"] == "assign" and st["rv"]["k"] == "bin" and st["rv"]["op"] == "Ge" for bb, j, st in g_.stmts())
+                     for g_ in clo)
+            if okd and ge:
+                r.ok("max_depth", "children are generated at depth + 1 and only while depth < max_depth (depth >= max ⇒ Skip)", fn=ro)
+            else:
+                r.bad("max_depth", "the parallel walker's depth limit is no longer `depth >= max ⇒ do not descend` with children at depth + 1",
+                      fn=ro, construct="max_depth")
+        else:
+            r.bad("max_depth", "the parallel walker descends without consulting max_depth", fn=ro, construct="max_depth")
+        sfs = ro.calls_to(W + "::is_same_file_system")
+        if sfs and gw:
+            s0 = seed_after_call(ro, sfs[0], V("Ok", I(0)))
+            if gw[0].bb in s0.exec_blocks:
+                r.bad("same_fs", "a directory on another file system is still descended by the parallel walker", fn=ro, construct="same_fs")
+            else:
+                r.ok("same_fs", "is_same_file_system == false ⇒ visited but not descended", fn=ro)
+        else:
+            r.bad("same_fs", "anchor-missing: device check in run_one", fn=ro)
+        ih = facts.fn("ignore::pathutil::is_hidden")
+        ebi = ExprBuilder(ih)
+        e_ = ebi.local(0)
+        dots = any(x.k == "const" and x[2] and ("46_u8" in str(x[2]) or "'.'" in str(x[2]) or '"."' in str(x[2])) for x in walk(e_))
+        if dots and mentions_call(e_, "ignore::pathutil::file_name"):
+            r.ok("is_hidden", "hidden ⇔ the file name starts with '.'", fn=ih)
+        else:
+            r.bad("is_hidden", "is_hidden is no longer 'file name starts with a dot' (`%s`)" % show(e_)[:70], fn=ih, construct="is_hidden")
+        wb_ = facts.fn(W + "::WalkBuilder::build")
+        wbc = facts.with_closures(W + "::WalkBuilder::build")
+        wd = {c.path.split("::")[-1]: (g_, c) for g_ in wbc for c in g_.calls() if c.path.startswith("walkdir::WalkDir::")}
+        okw = True
+        for m_, fld in (("max_depth", "max_depth"), ("same_file_system", "same_file_system"), ("follow_links", "follow_links")):
+            if m_ not in wd:
+                okw = False
+                continue
+            g_, c = wd[m_]
+            e2 = ExprBuilder(g_).operand(c.args[1])
+            if m_ == "follow_links":
+                # `follow_links || p.is_file()`: the option enters through control flow; require the test on it
+                swf = cond_switches(g_, lambda e: any(x.k == "field" and x[3] == "follow_links" for x in walk(e)), ExprBuilder(g_))
+                if not swf:
+                    okw = False
+                continue
+            if not (mentions_field(e2, W + "::WalkBuilder", fld) or any(x.k == "field" and x[3] == fld for x in walk(e2))):
+                okw = False
+        if okw:
+            r.ok("serial|walkdir", "the serial walker hands max_depth / same_file_system / follow_links to walkdir", fn=wb_)
+        else:
+            r.bad("serial|walkdir", "WalkBuilder::build no longer forwards max_depth / same_file_system / follow_links to walkdir", fn=wb_,
+                  construct="walkdir")
+
     with ctx.rule("C06.ROOTS", "depth-0 entries bypass every predicate in both walkers", floor=2, kind="DOM/NOCALL") as r:
         rs = root_switch(ser)
         if rs is None:
